@@ -697,8 +697,8 @@ class Interp:
             from .verify import exec_for_with_invariant
             return exec_for_with_invariant(self, node, env, inv, qn, k)
         itv = self.eval(node.iter, env)
-        if isinstance(itv, (SymList, EnumSym)):
-            self.unsupported("loop over a list of symbolic length without an invariant", node)
+        if isinstance(itv, (SymList, EnumSym, RevSym, SymRange)):
+            self.unsupported("loop over a list / range of symbolic length without an invariant", node)
         items = self.iterate(itv, node)
         for x in items:
             self.assign(node.target, x, env)
@@ -1069,6 +1069,16 @@ class Interp:
             # python orders str by code points, lexicographically: the same order as SMT-LIB str.< / str.<=
             za, zb = str_z3(a), str_z3(b)
             return bool_value({'<': za < zb, '<=': za <= zb, '>': zb < za, '>=': zb <= za}[sym])
+        if isinstance(a, tuple) and isinstance(b, tuple) and len(a) == len(b) \
+                and all(is_intlike(x) and is_intlike(y) for x, y in zip(a, b)):
+            # lexicographic order of equal-length tuples of integers
+            strict = sym in ('<', '>')
+            xs, ys = (a, b) if sym in ('<', '<=') else (b, a)
+            acc = z3.BoolVal(not strict)            # all components equal
+            for x, y in reversed(list(zip(xs, ys))):
+                zx, zy = to_zint(x), to_zint(y)
+                acc = z3.Or(zx < zy, z3.And(zx == zy, acc))
+            return bool_value(z3.simplify(acc))
         if a is None or b is None or (kind_of(a) != kind_of(b) and {kind_of(a), kind_of(b)} != {'int', 'float'}):
             if kind_of(a) in ('obj', 'opaque', 'other') or kind_of(b) in ('obj', 'opaque', 'other'):
                 self.unsupported("ordering comparison on objects", node)
@@ -1332,7 +1342,7 @@ class Interp:
         if name in self.config.get('watch_attrs', ()) and isinstance(obj, SObj):
             self.st.events.append(('store', name, obj.tag, tuple(sorted(k for k, v2 in getattr(self, 'lock_depth', {}).items() if v2 > 0))))
         if isinstance(obj, SObj):
-            if obj.tag == 'symlist-element' or id(obj) in self.st.notes.get('frozen', ()):
+            if obj.tag in ('symlist-element', 'symlist-element-part') or id(obj) in self.st.notes.get('frozen', ()):
                 self.unsupported("store into an element of a list of symbolic length (elements are read-only views)", node)
             obj.fields[name] = v
             return
